@@ -202,6 +202,129 @@ func killScenario(k int, poison bool, bounds []int) *vexp.Scenario {
 	}
 }
 
+// selfKillScenario: the actor kills ITSELF from a handler while k user messages are already queued behind the message
+// being handled. Immediate: the kill overtakes them. Poison: they are processed first.
+func selfKillScenario(k int, poison bool, bounds []int) *vexp.Scenario {
+	return &vexp.Scenario{
+		Name:   fmt.Sprintf("self-kill/queued=%d/poison=%v", k, poison),
+		Family: "kill-vs-queue",
+		Cfg:    vsys.Coarse(60000),
+		Bounds: bounds,
+		Setup:  func(x *vexp.X) { vsys.CoarseSetup() },
+		Body: func(x *vexp.X) {
+			w := vsys.NewWorld(x)
+			w.Quiet = true
+			w.Start()
+			released := false
+			w.SpawnRoot(&vsys.Script{Name: "t", OnMsg: func(a *vsys.Act, ctx vivid.ActorContext, m vsys.Msg) {
+				switch m.ID {
+				case "hold":
+					vrt.Block(vrt.KYield, 0, "held handler of /t", func() bool { return released })
+				case "die":
+					ctx.Kill(ctx.Ref(), poison, "self")
+				}
+			}})
+			vrt.QuiesceNoTimers()
+			ref := w.Ref("/t")
+			ctx := actor.VerifCtxOf(w.Sys, "/t")
+			w.Sys.Tell(ref, vsys.Msg{ID: "hold"})
+			vrt.QuiesceNoTimers()
+			w.Sys.Tell(ref, vsys.Msg{ID: "die"})
+			for i := 0; i < k; i++ {
+				w.Sys.Tell(ref, vsys.Msg{ID: fmt.Sprintf("m%d", i)})
+			}
+			released = true
+			vrt.QuiesceNoTimers()
+			var seen []string
+			killSeenAt := -1
+			for _, e := range w.EntriesOf("/t") {
+				if e.Type == "OnKill" {
+					killSeenAt = len(seen)
+				}
+				if e.Type == "Msg" && strings.HasPrefix(e.Detail, "m") {
+					seen = append(seen, e.Detail)
+				}
+			}
+			_ = ctx
+			if killSeenAt < 0 {
+				x.Fail("harness", "the actor never saw its own OnKill")
+			} else if poison && killSeenAt != k {
+				x.Fail("poison-after-backlog", "%d user messages were queued before the actor poison-killed itself; it processed %d of them before OnKill: %v", k, killSeenAt, seen)
+			} else if !poison && len(seen) != 0 {
+				x.Fail("immediate-kill-overtakes", "the actor killed itself immediately with %d user messages queued; it still processed %v (before OnKill: %d)", k, seen, killSeenAt)
+			}
+			x.Outcome(fmt.Sprintf("%v|kill@%d", seen, killSeenAt))
+			w.Sys.Stop()
+			vrt.QuiesceNoTimers()
+		},
+	}
+}
+
+// restartChildrenScenario: a parent with a child is restarted (gracefully or not); the child has k user messages queued
+// when the parent's kill reaches it. Graceful = poison: the child processes them first; immediate: the kill overtakes them.
+func restartChildrenScenario(k int, dec vivid.SupervisionDecision, bounds []int) *vexp.Scenario {
+	return &vexp.Scenario{
+		Name:   fmt.Sprintf("kill-from-restarting-parent/queued=%d/dec=%s", k, dec),
+		Family: "kill-vs-queue",
+		Cfg:    vsys.Coarse(60000),
+		Bounds: bounds,
+		Setup:  func(x *vexp.X) { vsys.CoarseSetup() },
+		Body: func(x *vexp.X) {
+			w := vsys.NewWorld(x)
+			w.Quiet = true
+			w.Start()
+			released := false
+			c := &vsys.Script{Name: "c", OnMsg: func(a *vsys.Act, ctx vivid.ActorContext, m vsys.Msg) {
+				if m.ID == "hold" {
+					vrt.Block(vrt.KYield, 0, "held handler of /p/a/c", func() bool { return released })
+				}
+			}}
+			a := &vsys.Script{Name: "a", Children: []*vsys.Script{c}, OnMsg: func(act *vsys.Act, ctx vivid.ActorContext, m vsys.Msg) {
+				if m.ID == "boom" {
+					panic("scripted")
+				}
+			}}
+			par := &vsys.Script{Name: "p", Children: []*vsys.Script{a}}
+			par.Strategy = w.Decider("/p", false, dec)
+			w.SpawnRoot(par)
+			vrt.QuiesceNoTimers()
+			rc := w.Ref("/p/a/c")
+			w.Sys.Tell(rc, vsys.Msg{ID: "hold"})
+			vrt.QuiesceNoTimers()
+			for i := 0; i < k; i++ {
+				w.Sys.Tell(rc, vsys.Msg{ID: fmt.Sprintf("m%d", i)})
+			}
+			w.Sys.Tell(w.Ref("/p/a"), vsys.Msg{ID: "boom"})
+			vrt.QuiesceNoTimers() // the parent has failed, is being restarted and has forwarded its kill to the (held) child
+			released = true
+			vrt.QuiesceNoTimers()
+			var seen []string
+			killSeenAt, poisonSeen := -1, false
+			for _, e := range w.Incs["/p/a/c"][0].Entries {
+				if e.Type == "OnKill" && killSeenAt < 0 {
+					killSeenAt = len(seen)
+					poisonSeen = strings.Contains(e.Detail, "poison=true")
+				}
+				if e.Type == "Msg" && strings.HasPrefix(e.Detail, "m") {
+					seen = append(seen, e.Detail)
+				}
+			}
+			graceful := dec == vivid.SupervisionDecisionGracefulRestart || dec == vivid.SupervisionDecisionGracefulStop
+			switch {
+			case killSeenAt < 0:
+				x.Fail("harness", "the child of the restarted / stopped parent never saw OnKill (saw %v)", seen)
+			case graceful && (killSeenAt != k || !poisonSeen):
+				x.Fail("poison-after-backlog", "the parent was %s: its child had %d user messages queued and must process them before the poison kill; it processed %d before OnKill(poison=%v): %v", dec, k, killSeenAt, poisonSeen, seen)
+			case !graceful && len(seen) != 0:
+				x.Fail("immediate-kill-overtakes", "the parent was %s: its kill overtakes the %d user messages queued at the child; the child still processed %v", dec, k, seen)
+			}
+			x.Outcome(fmt.Sprintf("%v|kill@%d", seen, killSeenAt))
+			w.Sys.Stop()
+			vrt.QuiesceNoTimers()
+		},
+	}
+}
+
 func build(tier string) []*vexp.Scenario {
 	bounds := []int{0, 1}
 	maxLen := 5
@@ -258,6 +381,10 @@ func build(tier string) []*vexp.Scenario {
 	for _, k := range []int{1, 2, 3} {
 		for _, poison := range []bool{false, true} {
 			out = append(out, killScenario(k, poison, append(bounds, bounds[len(bounds)-1]+1)))
+			out = append(out, selfKillScenario(k, poison, bounds))
+		}
+		for _, d := range []vivid.SupervisionDecision{vivid.SupervisionDecisionRestart, vivid.SupervisionDecisionGracefulRestart, vivid.SupervisionDecisionStop, vivid.SupervisionDecisionGracefulStop} {
+			out = append(out, restartChildrenScenario(k, d, bounds))
 		}
 	}
 	return out
